@@ -1,6 +1,7 @@
 import Dashu.Driver.Loop
 import Dashu.Model.NT.Modular
 import Dashu.Model.NT.Gcd
+import Dashu.Model.NT.Lehmer
 import Dashu.Model.NT.Root
 import Dashu.Model.NT.Log
 import Dashu.Model.NT.Log2
@@ -248,7 +249,15 @@ def dispatchC12 : Dispatch := fun W op args =>
   match op, args with
   | "u.gcd", [a, b] | "i.gcd", [a, b] | "ui.gcd", [a, b] | "iu.gcd", [a, b] => do
     let a ← parseInt a; let b ← parseInt b
-    pure (chk (exc natToHex (gcdRepr W a.natAbs b.natAbs)) (gcdSpec a.natAbs b.natAbs))
+    let (x, y) := (a.natAbs, b.natAbs)
+    -- two distinct multi-word operands: also run the mirrored Lehmer loop (`lehmer::gcd_in_place`)
+    let mirror :=
+      if x ≥ 2 ^ (2 * W) ∧ y ≥ 2 ^ (2 * W) ∧ x ≠ y then
+        match lehmerGcd W (max x y) (min x y) with
+        | .ok g => if g = Nat.gcd x y then "" else " !model-lehmer-mirror-mismatch " ++ natToHex g
+        | .error k => " !model-lehmer-mirror-error " ++ k.name.replace " " "_"
+      else ""
+    pure (chk (exc natToHex (gcdRepr W x y)) (gcdSpec x y) ++ mirror)
   | "u.gcdext", [a, b] | "i.gcdext", [a, b] | "ui.gcdext", [a, b] | "iu.gcdext", [a, b] => do
     let a ← parseInt a; let b ← parseInt b
     pure (chk (gcdExtOut a b (gcdExtInt W lehmerExtFrontier a b)) (gcdExtSpec a b))
@@ -330,7 +339,8 @@ def dispatchC12 : Dispatch := fun W op args =>
     pure (chk (exc natToHex (gcdPrim a b)) (gcdSpec a b))
   | "p.gcdext", [ty, a, b] => do
     let _ ← primBits ty; let a ← parseNat a; let b ← parseNat b
-    pure (chk (gcdExtOut a b (xgcdPrim a b)) (gcdExtSpec a b))
+    -- u128 uses the two-width Euclid (half width 64), the narrower types the plain loop
+    pure (chk (gcdExtOut a b (if ty = "u128" then xgcdPrimWide 64 a b else xgcdPrim a b)) (gcdExtSpec a b))
   | "p.sqrtrem", [ty, a] => do
     let _ ← primBits ty; let a ← parseNat a
     let (s, r) := sqrtRemPrimFrontier a
